@@ -425,6 +425,9 @@ func hazardProjects() []hazard {
 		{"converter-declared-as-alias", mod(scratch.Tree{"p/p.go": "package p\n\ntype In struct{ A int }\ntype Out struct{ A int }\n\n// goverter:converter\ntype C = interface {\n\tConvert(source In) Out\n}\n"})},
 		{"converter-declared-as-alias-of-alias", mod(scratch.Tree{"p/p.go": "package p\n\ntype In struct{ A int }\ntype Out struct{ A int }\n\ntype C interface {\n\tConvert(source In) Out\n}\n\n// goverter:converter\ntype D = C\n"})},
 		{"converter-declared-in-group-and-embedded", mod(scratch.Tree{"p/p.go": "package p\n\ntype In struct{ A int }\ntype Out struct{ A int }\n\ntype Base interface {\n\tConvert(source In) Out\n}\n\ntype (\n\t// goverter:converter\n\tC interface {\n\t\tBase\n\t\tOther(source []In) []Out\n\t}\n\t// goverter:converter\n\tE interface{ ~int | ~string }\n)\n"})},
+		// a declared method that needs a context converts A -> B; a sibling WITHOUT that context needs A -> B nested, with a
+		// further named pair inside that has no helper yet (the sibling sorts first): a diagnostic, in every variant
+		{"sibling-lacks-the-context-of-the-declared-method", mod(scratch.Tree{"p/p.go": "package p\n\ntype Detail struct{ N int }\ntype DetailDTO struct{ N int }\ntype Item struct {\n\tD Detail\n\tV int\n}\ntype ItemDTO struct {\n\tD DetailDTO\n\tV int\n}\ntype Order struct{ Items []Item }\ntype OrderDTO struct{ Items []ItemDTO }\n\n// goverter:converter\ntype C interface {\n\tAOrder(source Order) OrderDTO\n\t// goverter:context tag\n\tZItem(source Item, tag string) ItemDTO\n}\n\n// goverter:converter\ntype D interface {\n\tZOrder(source Order) OrderDTO\n\t// goverter:context tag\n\t// goverter:ignore D\n\tAItem(source Item, tag string) ItemDTO\n}\n"})},
 		{"generic-extend-and-default", mod(scratch.Tree{"p/p.go": "package p\n\ntype In struct{ A int }\ntype Out struct{ A int }\n\nfunc Id[T any](v T) T { return v }\nfunc New[T any]() T { var z T; return z }\n\n// goverter:converter\n// goverter:extend Id\ntype C interface {\n\t// goverter:default New\n\t// goverter:map A | Id\n\tConvert(source In) Out\n}\n"})},
 	}
 }
